@@ -12,6 +12,8 @@ cp $WT/OUT/patch.diff $OUT/patch.diff
 cp $WT/OUT/zz_demo_test.go $OUT/zz_demo_test.go 2>/dev/null || cp $WT/zz_demo_test.go $OUT/zz_demo_test.go
 cp $WT/OUT/NOTES.md $OUT/NOTES.md 2>/dev/null
 DEMO=$(grep -o 'func Test[A-Za-z0-9_]*' $OUT/zz_demo_test.go | head -1 | sed 's/func //')
+MODE=${MODE:-all}
+if [ "$MODE" != "checks" ]; then
 cd $WT
 # make sure the worktree has exactly the patch applied on top of its HEAD
 git checkout -q -- . 2>/dev/null
@@ -31,6 +33,10 @@ go test -mod=mod -vet=off -count=1 -timeout 10m -run "^${DEMO}\$" . > $OUT/demo_
 tail -3 $OUT/demo_without.log
 git apply $OUT/patch.diff
 echo "demo_with_rc=$RW suite_with_rc=$RS demo_without_rc=$RO"
+echo "$RW $RS $RO" > $OUT/wt_rc.txt
+fi
+if [ "$MODE" = "wt" ]; then exit 0; fi
+read RW RS RO < $OUT/wt_rc.txt
 # our checks against the change, applied to /repo itself and undone straight afterwards
 cd /verif
 RES=""
